@@ -1,4 +1,4 @@
-"""C18 — read_object returns what restore would, under any memory budget.  (draft: Lean part attached after merges)"""
+"""C18 harness library: real read_object under budgets, consumer probe, in-flight accounting."""
 from __future__ import annotations
 
 import os
@@ -179,6 +179,8 @@ def read_cases(ctx: Ctx, case: Dict[str, Any], suite: str):
                                  dict(pk, budget=budget, serializers=sorted(x for x in sers if x)), suite=suite)
                     ctx.count("budget.single_oversized" if pk["peak"] > budget else "budget.within")
                     ctx.count("reads", sum(1 for e in ev if e[0] == "read"))
+                if ctx.driver and budget is not None and is_tensor and isinstance(want, torch.Tensor):
+                    _tie_tiles(ctx, entry, budget, [e for e in w1.storage.log if e["op"] == "read" and not e["raw"].endswith(".snapshot_metadata")], inp)
                 ctx.count("entry." + type(entry).__name__)
                 ctx.count("out." + out_kind)
                 ctx.case(suite, {"path": path, "budget": budget, "obj_out": out_kind, "entry": type(entry).__name__, "size": size},
@@ -191,6 +193,27 @@ def read_cases(ctx: Ctx, case: Dict[str, Any], suite: str):
         except Exception:
             ctx.count("missing.raised")
         ctx.case(suite, {"path": bogus, "missing": True}, nontrivial=False)
+
+
+def _tie_tiles(ctx, entry, budget, reads, inp):
+    """The byte ranges the real read_object requested must be exactly the model's tiles of every raw unit."""
+    from torchsnapshot.manifest import ChunkedTensorEntry
+    units = [ch.tensor for ch in entry.chunks] if isinstance(entry, ChunkedTensorEntry) else [entry]
+    expected = []
+    for te in units:
+        if te.serializer != "buffer_protocol":
+            expected.append((te.location, tuple(te.byte_range) if te.byte_range else None))
+            continue
+        rep = ctx.driver.call({"op": "tile", "shape": list(te.shape), "dtype": te.dtype.replace("torch.", ""), "flat": True,
+                               "limit": budget, "base": list(te.byte_range) if te.byte_range else None})
+        if "tiles" not in rep:
+            ctx.disagree("read_object_tiles", {k: v for k, v in inp.items() if k != "case"}, "real read succeeded", rep)
+            return
+        expected += [(te.location, tuple(t["range"])) for t in rep["tiles"]]
+    got = sorted((e["raw"], tuple(e["range"]) if e["range"] else None) for e in reads)
+    if got != sorted(expected):
+        ctx.disagree("read_object_tiles", {k: v for k, v in inp.items() if k != "case"}, got[:12], sorted(expected)[:12],
+                     "byte ranges read by read_object differ from the model's tiles")
 
 
 def gen_case(rng) -> Dict[str, Any]:
